@@ -380,6 +380,8 @@ def e2e_sweep(ctx):
         raise C.Infra('the CLI of /repo does not build')
     t0 = time.time()
     cases = e2e.sweep_cases(ctx.tier)
+    for c in cases:
+        c['limit'] = 900 if ctx.tier == 'thorough' else 300
     results = e2e.run_pool(e2e.sweep_case, cases, workers=8)
     dist, mine, big = {}, [], 0
     for r, c in zip(results, cases):
@@ -393,7 +395,7 @@ def e2e_sweep(ctx):
         for (p, msg) in r['failures']:
             mine.append((c, msg))
     ctx.parts.append(dict(name='e2e(size sweep)', evaluations=len(cases), distinct_nontrivial=big,
-                          rule='enumerated: --detect-secrets on repositories of 300 … 12 000 objects (thorough: every 50 between 1 400 and 3 400, up to 120 000) so that ids in flight × bytes per reply cross the 64 KiB pipe buffers (41-byte ids: 1 598 per pipe; ~55-byte replies: ~1 190 per pipe), and with blobs of 700 … 70 000 bytes (thorough … 300 000); --analyze on 100 … 6 000 commits (thorough … 15 000); filtering with no option, with --path-rename + --max-blob-size, with --path + --prune-empty on 200 … 2 500 commits (thorough … 8 000) and on blobs of 70 000 / 300 000 bytes (thorough … 3 MB); each with the git children unpaced, re-chunked (113/251-byte dd relays), slowed, or with their whole output buffered, under perturbed TZ/LANG/TMPDIR; wall-clock bound 900 s per run, a timeout or a non-zero exit is a violation. Non-trivial: a successful run whose traffic exceeds one pipe buffer.',
+                          rule='enumerated: --detect-secrets on repositories of 300 … 12 000 objects (thorough: every 50 between 1 400 and 3 400, up to 120 000) so that ids in flight × bytes per reply cross the 64 KiB pipe buffers (41-byte ids: 1 598 per pipe; ~55-byte replies: ~1 190 per pipe), and with blobs of 700 … 70 000 bytes (thorough … 300 000); --analyze on 100 … 6 000 commits (thorough … 15 000); filtering with no option, with --path-rename + --max-blob-size, with --path + --prune-empty on 200 … 2 500 commits (thorough … 8 000) and on blobs of 70 000 / 300 000 bytes (thorough … 3 MB); each with the git children unpaced, re-chunked (113/251-byte dd relays), slowed, or with their whole output buffered, under perturbed TZ/LANG/TMPDIR; wall-clock bound 300 s per run (thorough 900 s; unchanged-tree runs take 1-6 s), a timeout or a non-zero exit is a violation. Non-trivial: a successful run whose traffic exceeds one pipe buffer.',
                           samples=[{k: cases[i][k] for k in ('mode', 'n', 'blobsize', 'shim', 'args')} for i in (0, len(cases) // 2, len(cases) - 1)],
                           distribution=dist, wall_s=round(time.time() - t0, 1), exhaustive=False, impl_property_failures_for_this_property=len(mine)))
     for c, msg in mine[:3]:
@@ -411,6 +413,16 @@ def _replay_sweep(ctx, doc, path):
         print(f'VIOLATION property={ctx.pid} replay={path}')
         return 1
     return 0
+
+
+E2E_COUNTS['quick']['head'] = 140
+E2E_COUNTS['thorough']['head'] = 2800
+E2E_RULES['head'] = ('generated histories checked out on a branch, then one of seven scenario families: the last 1-3 commits of the checked-out branch only add a file that the run removes (every surviving commit keeps its id); the same with a --branch-rename of the checked-out branch; a partial run (--refs) that excludes the checked-out branch combined with a --branch-rename whose prefix the checked-out branch also matches; chained renames (x/x/foo and checked-out x/foo with x/:); a checked-out orphan branch all of whose commits are pruned; the generated option set on an attached and on a detached HEAD. After the run: HEAD must be where the Lean model of the HEAD block (headTarget, fed with HEAD before, the refs after, the rename and the branch refs named in the filtered stream) says, must name an existing branch, git status must be clean and the index must equal the tree of HEAD. Non-trivial: the run succeeds.')
+
+
+@runner
+def e2e_head(ctx):
+    _e2e(ctx, ['head'], fn_name='head_case', gen_mode='filter', label='head')
 
 
 @runner
